@@ -1413,7 +1413,7 @@ struct array : static_array<T, D, Alloc> {
 	auto assign(It first, It last) -> array& {
 		using std::all_of;
 		using std::next;
-		if(adl_distance(first, last) == this->size()) {
+		if((first == last)?this->is_empty():(this->extensions() == typename array::index_extension(adl_distance(first, last))*multi::extensions(*first))) {  // all extents (not only the leading size) must agree to assign in place
 			static_::ref::assign(first);
 		} else {
 			this->operator=(array(first, last));
